@@ -502,7 +502,7 @@ class Gen:
         prog = []
         for k in range(r.randint(0, 3)):
             prog.append(self.function(k))
-        self.budget = r.randint(self.max_stmts // 3, self.max_stmts)
+        self.budget = self.max_stmts if getattr(self, "long_main", False) else r.randint(self.max_stmts // 3, self.max_stmts)
         env = [{}]
         body = self.prelude(env)
         body += self.block(env, self.max_depth, False, None, self.max_stmts, set())
